@@ -870,6 +870,7 @@ def r5_mode_agreement(w):
     start = ('Markup', entry[0].short, ('Markup', False, False, None), ('Markup', False, False))
     seen, work = {start}, [start]
     pred = {start: None}
+    hash_modes = {}       # (parent kind, printer site) -> {mode handed to the child that follows `#` when the parent is printed in math mode: child kinds}
     reported = {}
     unknown_fns = set()
     n_edges = 0
@@ -946,6 +947,8 @@ def r5_mode_agreement(w):
                         ahs = {x[2] for x in sq[0]}
                         if len(ahs) == 1 and None not in ahs:
                             P3 = (P2[0], P2[1], next(iter(ahs)), P2[3])      # the flag set for the child after `#` / after anything else at this site
+                    if hash_prev and P[0] == 'Math':
+                        hash_modes.setdefault((K, last(fn)), {}).setdefault(P3[0], set()).add(X)
                     for c in cs:
                         if X in elig and not compare(K, X, hash_prev, c, P3, fn):
                             continue
@@ -981,6 +984,7 @@ def r5_mode_agreement(w):
         r.ok({'kind': K, 'converter': last(fn), 'printer_context': list(P[:3]), 'cover_context': list(C)}, 'reachable state: equal or harmlessly weaker')
     if unknown_fns:
         r.note('converters whose parent kinds are unknown (their children are not followed): %s' % sorted(last(x) for x in unknown_fns))
+    r.hash_modes = hash_modes
     r.note('%d reachable (kind, converter, printer context, cover context) states, %d context pairs compared; %d converters evaluated for context changes, %d pass their context on unchanged'
            % (len(seen), n_edges, len(evaluated), len(passthrough)))
     return r
@@ -988,6 +992,36 @@ def r5_mode_agreement(w):
 
 def last(s):
     return s.rsplit('::', 1)[-1]
+
+
+_R5_CACHE = {}
+
+
+def printer_hash_mode_obligations(w):
+    """[(ok, construct, key, why, loc)] - printer side only (used by C01 / C04; seed C04/4B): an expression embedded with `#` in math is code, so
+    at every site the simulation of R5 reaches in math mode the child that follows a `#` must be handed a Code-mode context.  In math mode the
+    converters print a call's arguments the math way (`convert_args_in_math`: bare commas, no trailing content blocks), which re-parses differently
+    or not at all for a code call (`$x_#text(red)[i]$` -> `#text(red [i])`)."""
+    key = w.facts_dir
+    if key not in _R5_CACHE:
+        _R5_CACHE[key] = r5_mode_agreement(w)
+    r5 = _R5_CACHE[key]
+    hm = getattr(r5, 'hash_modes', None)
+    out = []
+    if not hm:
+        out.append((False, {'sites': 0}, 'hash-mode|not-evaluated', 'the printer simulation reached no `#` site in math mode (anchor missing)', None))
+        return out
+    for (K, site), modes in sorted(hm.items()):
+        cons = {'parent': K, 'printer_site': site, 'modes_after_hash_in_math': sorted(modes)}
+        badm = sorted(m_ for m_ in modes if m_ != 'Code')
+        if badm:
+            out.append((False, cons, 'hash-mode|%s|%s|%s' % (site, K, badm[0]),
+                        'in math mode %s converts the child of a %s node that follows a `#` (e.g. %s) in %s mode instead of Code mode: an embedded code expression is then printed '
+                        'by the math converters (call arguments without their trailing content blocks / with math separators) and no longer parses or parses differently'
+                        % (site, K, sorted(modes[badm[0]])[:3], badm[0]), None))
+        else:
+            out.append((True, cons, 'hash-mode|%s|%s' % (site, K), 'the child after `#` is converted in Code mode', None))
+    return out
 
 
 RULES = [r1_clamp_before_slice, r2_refusal, r3_consistency, r4_range_only_partial_ops, r5_mode_agreement]
